@@ -141,6 +141,11 @@ P128 = 2 ** 128
 _LIT_FACTS = {}
 
 
+def _needs(sc, decls):
+    sc.needs_decls = set(decls)
+    return sc
+
+
 def _literal_net_facts(eng):
     """ip_network() on the literal network strings of the working tree (computed with the stdlib ipaddress of the
     engine's interpreter; part of assumed contract E-ipaddress, conformance-tested against /venv's)."""
@@ -160,9 +165,10 @@ def _literal_net_facts(eng):
             n = _ip.ip_network(l)
             if n.version != 4:
                 raise ValueError
-            out.append(Schema("E-ipaddress.lit[%s]" % l, [], z3.And(
+            out.append(_needs(Schema("E-ipaddress.lit[%s]" % l, [], z3.And(
                 valid_net(zstr(l)), net_plen(net_of_str(zstr(l))) == n.prefixlen,
-                net_int(net_of_str(zstr(l))) == int(n.network_address)), triggers=None, origin="assumed"))
+                net_int(net_of_str(zstr(l))) == int(n.network_address)), triggers=None, origin="assumed"),
+                {"ValidNet4", "ip_network"}))
         except ValueError:
             out.append(Schema("E-ipaddress.lit[%s]" % l, [], z3.Not(valid_net(zstr(l))), triggers=None,
                               origin="assumed"))
@@ -192,8 +198,8 @@ def e_ipaddress(eng):
             text_val6(s) >= 0, text_val6(s) < P128, addr_int(addr_of_text6(s)) == text_val6(s))),
             triggers=[[addr_of_text6(s)], [text_val6(s)]], origin="assumed"),
     ] + _literal_net_facts(eng) + [
-        Schema("E-pow2.32", [], p2(zint(32)) == P32, triggers=None, origin="assumed"),
-        Schema("E-pow2.128", [], p2(zint(128)) == P128, triggers=None, origin="assumed"),
+        _needs(Schema("E-pow2.32", [], p2(zint(32)) == P32, triggers=None, origin="assumed"), {"pow2"}),
+        _needs(Schema("E-pow2.128", [], p2(zint(128)) == P128, triggers=None, origin="assumed"), {"pow2"}),
     ]
 
 
@@ -410,3 +416,46 @@ def match_group(eng, args, kw, node):
     if key not in m.groups:
         m.groups[key] = OptV(z3.Bool(eng.fresh_name("grp.some")), P(STR, z3.Const(eng.fresh_name("grp"), S)))
     return m.groups[key]
+
+
+def _membership(eng, pattern, flags, sterm, anchored_start):
+    """condition under which re.search / re.match(pattern, s) succeeds, for assertion-free bodies with optional
+    ^ ... $ / \\Z anchors ($ = end or before a final newline)"""
+    from pyvc import regex as rx
+    import re as _re
+    P_ = rx.Parsed(pattern, flags)
+    pre, body, post = P_.split_context()
+    def only_at(items, names):
+        return all(op is rx.sre_c.AT and str(av) in names for op, av in items)
+    if not only_at(pre, ("AT_BEGINNING", "AT_BEGINNING_STRING")) or not only_at(post, ("AT_END", "AT_END_STRING")):
+        raise rx.RegexUnsupported("look-around in membership test")
+    lang = rx.to_re(body, P_.ic)
+    start_anch = anchored_start or bool(pre)
+    if not start_anch:
+        lang = z3.Concat(rx.ALL, lang)
+    if not post:
+        lang = z3.Concat(lang, rx.ALL)
+        return z3.InRe(sterm, lang)
+    if any(str(av) == "AT_END" for _, av in post):
+        return z3.Or(z3.InRe(sterm, lang), z3.InRe(sterm, z3.Concat(lang, z3.Re(zstr("\n")))))
+    return z3.InRe(sterm, lang)
+
+
+def _re_test(anchored):
+    def h(eng, args, kw, node):
+        eng.used_assumptions.add("E-resub")
+        pat, s = args[0], args[1]
+        if not isinstance(pat, Conc):
+            raise Unsupported("re.search/match with a non-constant pattern")
+        from pyvc import regex as rx
+        st = eng.term(s, STR)
+        try:
+            cond = _membership(eng, pat.v, 0, st, anchored)
+        except rx.RegexUnsupported:
+            cond = z3.Bool(eng.fresh_name("re.opaque"))
+        return OptV(cond, Special("match", text=st, groups={}))
+    return h
+
+
+R.ext["re.search"] = _re_test(False)
+R.ext["re.match"] = _re_test(True)
